@@ -250,7 +250,7 @@ theorem C06_fixed_point_normal_equations {m n : Type} [Fintype m] [Fintype n] (A
     A.transpose.mulVec (P.mulVec (A.mulVec 0 - 0)) = 0 :=
   normal_eq_zero A P
 
-/-- … with x = 0, v = 0 the positional misclosures of the four tested types vanish … -/
+/-- … with x = 0, v = 0 the positional misclosures of the tested types vanish … -/
 theorem C06_fixed_point_pol (n : ℕ) (val orp sx sy cx cy dx dy dz : ℝ)
     (h : val + orp = (bearingDistance sy sx cy cx).1 ∨ val + orp = (bearingDistance sy sx cy cx).1 + 2 * Real.pi) :
     polDistance (bearingDistance sy sx cy cx).2 0 sx sy cx cy = 0 ∧
@@ -263,6 +263,14 @@ theorem C06_fixed_point_pol_angle (n : ℕ) (val sx sy cx cy cx2 cy2 : ℝ)
          val = (bearingDistance sy sx cy2 cx2).1 - (bearingDistance sy sx cy cx).1 + 2 * Real.pi) :
     polAngle (n + 1) val 0 sx sy cx cy cx2 cy2 = 0 :=
   polAngle_fixed n val sx sy cx cy cx2 cy2 h
+
+/-- … also for zenith angles, which the stopping test recomputes since fix 45be66f (finding F18) -/
+theorem C06_fixed_point_pol_zangle (n : ℕ) (val dx dy dz : ℝ)
+    (h : val = if Real.pi < val
+               then 2 * Real.pi - Real.arccos (-dz / Real.sqrt (dx * dx + dy * dy + dz * dz))
+               else Real.arccos (-dz / Real.sqrt (dx * dx + dy * dy + dz * dz))) :
+    polZAngle (n + 1) val 0 dx dy dz = 0 :=
+  polZAngle_fixed n val dx dy dz h
 
 /-- … and the stopping test passes (no further iteration): max |pol| = 0 < 0.0005 -/
 theorem C06_fixed_point_stop (k : ℕ) : testLin (List.replicate k (0 : ℝ)) = false :=
